@@ -11,6 +11,7 @@ import (
 	"fmt"
 	"net"
 	"runtime"
+	"slices"
 	"strings"
 	"sync"
 	"testing"
@@ -429,8 +430,8 @@ func TestC19Wrappers(t *testing.T) {
 func TestC19JumpHash(t *testing.T) {
 	rep := ev.NewReport("C19", "jump-hash")
 	const nKeys = 4096
-	rep.Bound = "server lists 10.0.0.i:11211 for i=1..n, n=1..64, handed to SetServers in reversed and in rotated order; 4096 fixed keys"
-	rep.Rule = "PickServer is a function of (key, naturally sorted list): argument order is irrelevant and the pick is the list element at the jump-hash index; growing the list by one server at its end moves a key only to the new server; distinct_nontrivial = (n, key) pairs whose server changed when the list grew"
+	rep.Bound = "server lists 10.0.0.i:11211 for i=1..n, n=1..64, handed to SetServers in reversed and in rotated order; 4096 fixed keys; plus every history of 3 non-empty subsets of 6 servers handed to ONE selector in turn"
+	rep.Rule = "PickServer is a function of (key, naturally sorted list): argument order is irrelevant and the pick is the list element at the jump-hash index; growing the list by one server at its end moves a key only to the new server; after any history of lists a selector lists and picks like a fresh one given the last list; distinct_nontrivial = (n, key) pairs whose server changed when the list grew"
 	keys := make([]string, nKeys)
 	for i := range keys {
 		keys[i] = fmt.Sprintf("key-%d-%x", i, i*2654435761)
@@ -499,6 +500,71 @@ func TestC19JumpHash(t *testing.T) {
 			break
 		}
 	}
+	// One selector over a history of server lists (the DNS provider calls SetServers on every resolution): after any
+	// sequence of lists the selector must behave like a fresh one given the last list only.
+	univ := []string{"10.0.0.1:11211", "10.0.0.2:11211", "10.0.0.3:11211", "10.0.0.10:11211", "10.0.0.4:11211", "10.0.0.20:11211"}
+	depth := 3
+	nSub := 1<<len(univ) - 1
+	subset := func(m int, reversed bool) []string {
+		var l []string
+		for i, u := range univ {
+			if m&(1<<i) != 0 {
+				l = append(l, u)
+			}
+		}
+		if reversed {
+			slices.Reverse(l)
+		}
+		return l
+	}
+	describe := func(sel *cache.MemcachedJumpHashSelector) string {
+		var sb strings.Builder
+		_ = sel.Each(func(a net.Addr) error { sb.WriteString(a.String() + " "); return nil })
+		sb.WriteString("|")
+		for _, k := range keys[:48] {
+			a, err := sel.PickServer(k)
+			if err != nil {
+				sb.WriteString("err ")
+			} else {
+				sb.WriteString(a.String()[7:] + " ")
+			}
+		}
+		return sb.String()
+	}
+	fresh := make([]string, nSub+1)
+	for m := 1; m <= nSub; m++ {
+		var f cache.MemcachedJumpHashSelector
+		_ = f.SetServers(subset(m, false)...)
+		fresh[m] = describe(&f)
+	}
+	total := 1
+	for i := 0; i < depth; i++ {
+		total *= nSub
+	}
+	hist := make([]int, depth)
+	for ix := 0; ix < total && rep.NumViolations() < 20; ix++ {
+		x := ix
+		for i := range hist {
+			hist[i] = x%nSub + 1
+			x /= nSub
+		}
+		var sel cache.MemcachedJumpHashSelector
+		for i, m := range hist {
+			if err := sel.SetServers(subset(m, i%2 == 1)...); err != nil {
+				t.Fatal(err)
+			}
+		}
+		rep.Eval(1)
+		rep.Trans(int64(depth))
+		if got := describe(&sel); got != fresh[hist[depth-1]] {
+			var hs []string
+			for i, m := range hist {
+				hs = append(hs, fmt.Sprint(subset(m, i%2 == 1)))
+			}
+			rep.Violate("jump:history:"+fmt.Sprint(hist), fmt.Sprintf("one selector given the lists %s in turn: server order | picks for 48 keys = %s, a fresh selector given the last list: %s", strings.Join(hs, " then "), got, fresh[hist[depth-1]]), nil)
+		}
+	}
+	rep.State(int64(nSub))
 	rep.Trace(rep.Evaluations)
 	if err := rep.Write(); err != nil {
 		t.Fatal(err)
